@@ -13,3 +13,23 @@ CHECKS["C10"] = dict(
         "signalling float32 NaNs may be quieted by the float32->float64->float32 path of the decoder; NaN-ness is required, payload only for quiet NaNs",
     ],
 )
+
+CHECKS["C01"] = dict(
+    pkg="codec", run="^TestC01_", level="exploration",
+    quick=dict(shards=4, checks=3000, timeout=600),
+    thorough=dict(shards=16, checks=25000, timeout=2400),
+    assumptions=[
+        "struct bodies are opaque sequences of scalar members (generated struct code is C05)",
+        "duplicate tags and empty raw values passed to Any are outside the domain (statement: distinct tags, valid values)",
+    ],
+)
+
+CHECKS["C08"] = dict(
+    pkg="codec", run="^TestC08_", level="exploration",
+    quick=dict(shards=4, checks=2500, timeout=600),
+    thorough=dict(shards=16, checks=40000, timeout=2400),
+    assumptions=[
+        "the reference encoder/decoder (harness/refcodec, written from format.md and the pinned type codes) is the statement of the wire layout; it is itself pinned by hand-written literals and by the golden corpus",
+        "golden corpus golden/c08.jsonl was captured with the encoder sources of the pinned commit (fix commits do not touch the layout)",
+    ],
+)
